@@ -17,9 +17,17 @@ import (
 	"verifharness/vlib"
 )
 
+type hop struct {
+	Set    []ldiffh.El `json:"set,omitempty"`
+	Remove *ldiffh.El  `json:"remove,omitempty"`
+}
+
 type spec struct {
 	Df      int         `json:"df"`
 	Th      int         `json:"th"`
+	ThR     int         `json:"thr,omitempty"`  // responder's threshold (0 = same as Th)
+	OpsL    []hop       `json:"opsL,omitempty"` // when set, the indexes are reached by these histories
+	OpsR    []hop       `json:"opsR,omitempty"`
 	L       []ldiffh.El `json:"L"`
 	R       []ldiffh.El `json:"R"`
 	Variant string      `json:"variant"`
@@ -70,16 +78,85 @@ func fill(d ldiff.Diff, es []ldiffh.El) {
 	}
 }
 
+func play(d ldiff.Diff, ops []hop) {
+	for _, o := range ops {
+		if o.Remove != nil {
+			_ = d.RemoveId(o.Remove.ID())
+			continue
+		}
+		fill(d, o.Set)
+	}
+}
+
+// history ending with exactly the given contents: the final elements arrive in 1-3 Set calls (some first with
+// another head), interleaved with temporary elements (hashes of the same shape) that are removed again
+func genHistory(r *vlib.Rand, g *ldiffh.HashGen, final []ldiffh.El, otherOnly []ldiffh.El) []hop {
+	var ops []hop
+	var temps []ldiffh.El
+	perm := r.Perm(len(final))
+	i := 0
+	for i < len(perm) || len(temps) > 0 {
+		switch c := r.Intn(7); {
+		case c < 3 && i < len(perm):
+			n := 1 + r.Intn(4)
+			var es []ldiffh.El
+			for ; n > 0 && i < len(perm); n-- {
+				e := final[perm[i]]
+				i++
+				if r.Chance(1, 4) {
+					e2 := e
+					e2.Head = e.Head + 1000
+					ops = append(ops, hop{Set: []ldiffh.El{e2}})
+				}
+				es = append(es, e)
+			}
+			ops = append(ops, hop{Set: es})
+		case (c == 3 || c == 4) && len(temps) < 14 && i < len(perm):
+			t := ldiffh.El{Salt: 500000 + uint64(r.Intn(100000)), Hash: g.Next(), Head: r.Intn(5)}
+			if len(otherOnly) > 0 && r.Bool() {
+				// an element the OTHER side still holds: this side had it once and removed it
+				t = otherOnly[r.Intn(len(otherOnly))]
+				dup := false
+				for _, x := range temps {
+					if x.Salt == t.Salt && x.Hash == t.Hash {
+						dup = true
+					}
+				}
+				if dup {
+					continue
+				}
+			}
+			temps = append(temps, t)
+			ops = append(ops, hop{Set: []ldiffh.El{t}})
+		case c >= 5 && len(temps) > 0 || i >= len(perm) && len(temps) > 0:
+			k := r.Intn(len(temps))
+			t := temps[k]
+			temps = append(temps[:k], temps[k+1:]...)
+			ops = append(ops, hop{Remove: &ldiffh.El{Salt: t.Salt, Hash: t.Hash}})
+		}
+	}
+	return ops
+}
+
 func runCase(s spec) (res result) {
 	defer func() {
 		if p := recover(); p != nil {
 			res.Panic = fmt.Sprint(p)
 		}
 	}()
+	thr := s.Th
+	if s.ThR != 0 {
+		thr = s.ThR
+	}
 	l := ldiff.New(s.Df, s.Th)
-	r := ldiff.New(s.Df, s.Th)
-	fill(l, s.L)
-	fill(r, s.R)
+	r := ldiff.New(s.Df, thr)
+	if s.OpsL != nil || s.OpsR != nil {
+		play(l, s.OpsL)
+		play(r, s.OpsR)
+	} else {
+		fill(l, s.L)
+		fill(r, s.R)
+	}
 	var remote ldiff.Remote = r
 	if s.Wire {
 		remote = headsync.NewRemoteDiff("space", wireClient{r})
@@ -258,11 +335,42 @@ func main() {
 		}
 		obsHex := res
 		res.New, res.Changed, res.Theirs, res.Removed = unhexAll(res.New), unhexAll(res.Changed), unhexAll(res.Theirs), unhexAll(res.Removed)
-		key := fmt.Sprintf("%d/%d/%s/%v/%s/%s", s.Df, s.Th, s.Variant, s.Wire, rk.ElemsTerm(s.L), rk.ElemsTerm(s.R))
+		hk, _ := json.Marshal([]interface{}{s.OpsL, s.OpsR, s.ThR})
+		key := fmt.Sprintf("%d/%d/%s/%v/%s/%s/%s", s.Df, s.Th, s.Variant, s.Wire, rk.ElemsTerm(s.L), rk.ElemsTerm(s.R), hk)
 		nontrivial := len(s.L)+len(s.R) >= 2
 		wr := vlib.Bool(s.Wire)
 		var term string
-		if s.Variant == "compare" {
+		if s.OpsL != nil || s.OpsR != nil {
+			for _, ops := range [][]hop{s.OpsL, s.OpsR} {
+				for _, o := range ops {
+					for _, e := range o.Set {
+						ids = append(ids, e.ID())
+					}
+					if o.Remove != nil {
+						ids = append(ids, o.Remove.ID())
+					}
+				}
+			}
+			rk = ldiffh.NewRanker(ids)
+			opsTerm := func(ops []hop) string {
+				t := make([]string, len(ops))
+				for i, o := range ops {
+					if o.Remove != nil {
+						t[i] = vlib.App("IRemove", vlib.N(rk.Rank(o.Remove.ID())))
+					} else {
+						t[i] = vlib.App("ISet", rk.ElemsTerm(o.Set))
+					}
+				}
+				return vlib.List(t)
+			}
+			thr := s.Th
+			if s.ThR != 0 {
+				thr = s.ThR
+			}
+			term = vlib.App("ICHistDiff", vlib.N(uint64(s.Df)), vlib.N(uint64(s.Th)), vlib.N(uint64(thr)), opsTerm(s.OpsL), opsTerm(s.OpsR),
+				vlib.Bool(s.Variant == "compare"), wr,
+				rk.IdsTerm(res.New), rk.IdsTerm(res.Changed), rk.IdsTerm(res.Theirs), rk.IdsTerm(res.Removed))
+		} else if s.Variant == "compare" {
 			term = vlib.App("ICCompare", vlib.N(uint64(s.Df)), vlib.N(uint64(s.Th)), rk.ElemsTerm(s.L), rk.ElemsTerm(s.R), wr,
 				rk.IdsTerm(res.New), rk.IdsTerm(res.Changed), rk.IdsTerm(res.Theirs), rk.IdsTerm(res.Removed))
 		} else {
@@ -333,6 +441,88 @@ func main() {
 		if r.Chance(2, 5) {
 			s.Variant = "compare"
 		}
+		if r.Chance(1, 3) {
+			// indexes reached by histories (splits and merges on the way); the responder may be tuned differently
+			g := ldiffh.NewHashGen(r, df, kind)
+			only := func(a, b []ldiffh.El) (res []ldiffh.El) {
+				in := map[[2]uint64]bool{}
+				for _, e := range b {
+					in[[2]uint64{e.Salt, e.Hash}] = true
+				}
+				for _, e := range a {
+					if !in[[2]uint64{e.Salt, e.Hash}] {
+						res = append(res, e)
+					}
+				}
+				return
+			}
+			s.OpsL, s.OpsR = genHistory(r, g, L, only(R, L)), genHistory(r, g, R, only(L, R))
+			if s.OpsL == nil {
+				s.OpsL = []hop{}
+			}
+			if s.OpsR == nil {
+				s.OpsR = []hop{}
+			}
+			if r.Bool() {
+				s.ThR = ldiffh.Ths[r.Intn(len(ldiffh.Ths))]
+			}
+			s.Shape = "hist_" + kind
+			w.Stat("built_by_history")
+			if s.ThR != 0 && s.ThR != s.Th {
+				w.Stat("responder_other_threshold")
+			}
+		}
+		do(s)
+	}
+	// shrink-and-grow family: the responder once held a deep cluster of thR+1 elements, removed one of them (the
+	// asker still has it), then grew again next to the cluster; the asker may use a smaller threshold
+	nsg := n / 8
+	for k := 0; k < nsg; k++ {
+		df := ldiffh.Dfs[r.Intn(len(ldiffh.Dfs))]
+		thr := 1 + r.Intn(3)
+		thl := 1 + r.Intn(thr)
+		base := r.U64()
+		depthBits := uint(8 + r.Intn(48))
+		base &^= (uint64(1) << depthBits) - 1
+		win := uint64(1) << uint(r.Intn(int(depthBits)-2)+1) // the cluster lives in [base, base+win)
+		var cluster []ldiffh.El
+		salt := uint64(r.Intn(1000))
+		for i := 0; i < thr+1+r.Intn(2); i++ {
+			cluster = append(cluster, ldiffh.El{Salt: salt, Hash: base + r.U64()%win, Head: r.Intn(5)})
+			salt++
+		}
+		gone := cluster[r.Intn(len(cluster))]
+		var grow []ldiffh.El
+		for i := 0; i < 1+r.Intn(3); i++ {
+			span := win << uint(1+r.Intn(int(depthBits)-1))
+			if span == 0 || span > (uint64(1)<<depthBits) {
+				span = uint64(1) << depthBits
+			}
+			grow = append(grow, ldiffh.El{Salt: salt, Hash: base + r.U64()%span, Head: r.Intn(5)})
+			salt++
+		}
+		opsR := []hop{{Set: cluster}, {Remove: &ldiffh.El{Salt: gone.Salt, Hash: gone.Hash}}}
+		for _, g := range grow {
+			opsR = append(opsR, hop{Set: []ldiffh.El{g}})
+		}
+		var L, R []ldiffh.El
+		for _, e := range cluster {
+			L = append(L, e)
+			if e != gone {
+				R = append(R, e)
+			}
+		}
+		for _, g := range grow {
+			R = append(R, g)
+			if r.Bool() {
+				L = append(L, g)
+			}
+		}
+		s := spec{Df: df, Th: thl, ThR: thr, L: L, R: R, OpsL: []hop{{Set: L}}, OpsR: opsR, Variant: []string{"diff", "compare"}[r.Intn(2)],
+			Wire: r.Chance(1, 4), Shape: "shrink_grow"}
+		if len(L) == 0 {
+			s.OpsL = []hop{}
+		}
 		do(s)
 	}
 	// production parameters around the threshold
@@ -386,7 +576,7 @@ func main() {
 		}
 	}
 	w.Finish("random pairs of head indexes: df in {2,3,4,5,7,16,32,33}, th in {1,2,3,8}, hash shapes uniform / deep bucket / narrow window / range boundaries / colliding hashes / mixed (ids placed through the xxhash64 inverse), "+
-		"R derived from L by add / remove / head change; both Diff and CompareDiff; 1 in 4 through NewRemoteDiff+protobuf+HandleRangeRequest; plus production parameters (32,256) with 300-600 elements; "+
+		"R derived from L by add / remove / head change; 1 in 3 pairs are reached by Set/RemoveId HISTORIES (temporary elements incl. ones the other side still holds, head rewrites) and half of those give the responder another threshold; plus a shrink-and-grow family (deep cluster of thR+1 elements, one removed, growth next to it, asker threshold <= responder threshold); both Diff and CompareDiff; 1 in 4 through NewRemoteDiff+protobuf+HandleRangeRequest; plus production parameters (32,256) with 300-600 elements; "+
 		"plus a few LARGE pairs (quick 2000-5000, thorough 5000-30000 elements) whose result is compared with the directly computed set difference only (no model run: stat large_oracle_only); "+
 		"non-trivial = at least 2 elements overall; distinct by (params, variant, wire, both contents)",
 		samples, nil)
